@@ -276,6 +276,18 @@ def ckpt_canon(r, sels, data, key, force=False):
     return b
 
 
+NO_TRAITS = {"neon"}    # NeonHash implements neither core::hash::Hasher nor std::io::Write
+
+
+def finish_ops(b, h, sel):
+    """64-bit digest without consuming the hasher: Hasher::finish, or clone + finalize64 for types
+    without the trait"""
+    if sel in NO_TRAITS:
+        b.op(f"clone {h} 31")
+        return b.op("fin 31 64")
+    return b.op(f"finish {h}")
+
+
 COUNTS = list(range(0, 35)) + [63, 64, 255, 256, 65535, 65536, 2**31 - 1, 2**31, 2**32 - 1]
 
 
@@ -300,10 +312,10 @@ def malformed(r, sels, count=None, force=False):
         h = 4 * hi
         b.op(f"{rs} {h} {sel} {hexbytes(c)}")
         c0 = b.op(f"ckpt {h}")
-        f0 = b.op(f"finish {h}")
+        f0 = finish_ops(b, h, sel)
         b.op(f"append {h} -")
         c1 = b.op(f"ckpt {h}")
-        f1 = b.op(f"finish {h}")
+        f1 = finish_ops(b, h, sel)
         b.eq(c0, c1, "empty append changed the checkpoint of a restored hasher")
         b.eq(f0, f1, "empty append changed the result of a restored hasher")
         # streaming invariance on the restored hasher: chunked vs whole
@@ -343,10 +355,12 @@ def default_case(r, sels, std=True):
         b.eq(c0, c1, f"{sel}: checkpoint of default() differs from new(Key::default())")
         for p in parts:
             e = r.choice(("append", "hwrite", "iocopy") if std else ("append", "hwrite"))
+            if sel in NO_TRAITS:
+                e = "append"
             b.op(f"{e} {h} {hexbytes(p)}")
             b.op(f"{e} {h + 1} {hexbytes(p)}")
-        f0 = b.op(f"finish {h}")
-        f1 = b.op(f"finish {h + 1}")
+        f0 = finish_ops(b, h, sel)
+        f1 = finish_ops(b, h + 1, sel)
         b.eq(f0, f1, f"{sel}: default() and new(Key::default()) disagree")
         x0 = b.op(f"fin {h} {w}")
         x1 = b.op(f"fin {h + 1} {w}")
@@ -382,6 +396,8 @@ def observers(r, sels, force=False):
                 b.op(f"append 9 {hexbytes(rbytes(r, r.randrange(0, 40)))}")   # diverge the clone
                 if r.random() < 0.5:
                     b.op(f"fin 9 {r.choice((64, 128, 256))}")
+            elif o == "finish" and sel in NO_TRAITS:
+                finish_ops(b, 0, sel)
             else:
                 b.op(f"{o} 0")
     c0 = b.op("ckpt 0")
